@@ -1,15 +1,18 @@
 package checks
 
 import (
-	"regexp"
 	"fmt"
 	"net"
 	"os"
 	"os/exec"
 	"path/filepath"
+	"regexp"
+	"runtime"
 	"sort"
 	"strings"
+	"sync"
 	"sync/atomic"
+	"syscall"
 	"testing"
 	"time"
 
@@ -64,6 +67,36 @@ func (s *syncBuf) String() string {
 func (s *syncBuf) Close() {
 	_ = s.f.Close()
 	_ = os.Remove(s.f.Name())
+}
+
+// startChild starts cmd so that the kernel kills it when this test process dies (Pdeathsig), whatever the reason -
+// otherwise a shard that is killed or exits early leaves proxies behind that spin on their reconnect timers and load
+// the machine for every later run. The parent-death signal is tied to the OS thread that forked the child, so all
+// children are forked from one goroutine that is locked to its thread and never ends.
+var spawnCh = make(chan spawnReq)
+var spawnOnce sync.Once
+
+type spawnReq struct {
+	cmd *exec.Cmd
+	err chan error
+}
+
+func startChild(cmd *exec.Cmd) error {
+	spawnOnce.Do(func() {
+		go func() {
+			runtime.LockOSThread()
+			for r := range spawnCh {
+				r.err <- r.cmd.Start()
+			}
+		}()
+	})
+	if cmd.SysProcAttr == nil {
+		cmd.SysProcAttr = &syscall.SysProcAttr{}
+	}
+	cmd.SysProcAttr.Pdeathsig = syscall.SIGKILL
+	r := spawnReq{cmd: cmd, err: make(chan error, 1)}
+	spawnCh <- r
+	return <-r.err
 }
 
 // Child processes are started with --bind 127.0.0.1:0: the kernel picks a free port atomically and the harness reads
@@ -133,9 +166,10 @@ func startBinary(args []string, env []string, yaml string) (*proc, error) {
 		args = append(args, "--config", f)
 	}
 	p.cmd = exec.Command(bin, args...)
+	p.cmd.SysProcAttr = &syscall.SysProcAttr{Pdeathsig: syscall.SIGKILL} // never outlive the test process
 	p.cmd.Env = append([]string{"PATH=/usr/bin:/bin", "HOME=/tmp"}, env...)
 	p.cmd.Stdout, p.cmd.Stderr = p.out.File(), p.out.File()
-	if err := p.cmd.Start(); err != nil {
+	if err := startChild(p.cmd); err != nil {
 		return nil, err
 	}
 	go func() { p.err = p.cmd.Wait(); close(p.done) }()
@@ -665,7 +699,7 @@ func TestC20(t *testing.T) {
 		})
 	}, c20Check)
 	rec.Extra("documented_spellings_enumerated", int64(n))
-	runProp(t, rec, "generated", perShard(evid.Pick(2000, 40000)), func(rt *rapid.T) c20Case {
+	runProp(t, rec, "generated", perShard(evid.Pick(5000, 150000)), func(rt *rapid.T) c20Case {
 		c := c20Gen(rt)
 		labels := []string{"expect:" + c.Expect, "why:" + c.Why}
 		for _, o := range c.Opts {
